@@ -3,6 +3,7 @@
 # Confirms an independently produced change: patch applies to a scratch copy of /repo, the demo
 # passes on /repo and fails on the copy, the listed repository tests pass on the copy; then runs the
 # checks against the copy (VERIF_REPO) and records everything in /verif/seeded/<seed-name>/.
+export OMP_NUM_THREADS=1 MKL_NUM_THREADS=1 OPENBLAS_NUM_THREADS=1
 name=$1; src=$2; prop=$3; checks=$4; shift 4; tests="$@"
 out=/verif/seeded/$name; mkdir -p $out
 cp $src/patch.diff $src/demo.py $out/ 2>/dev/null; cp $src/notes.md $out/agent_notes.md 2>/dev/null
